@@ -751,6 +751,8 @@ def check_conversion(case):
         cls.append("nt:all-zero")
     if len(x) == 64:
         cls.append("nt:len-64")
+    if case.get("kind") == "looks-like-prefix":
+        cls.append("nt:digits-look-like-a-prefix")
     if len(cls) == 1:
         cls.append("plain")
     # direct: every format's writer must emit a representation of x and the reader must invert it
@@ -822,7 +824,7 @@ FORMAT_PAIRS = [(a, b) for a in conv.FORMATS for b in conv.FORMATS]
 def conversion_cases(draw):
     mode = draw(st.sampled_from(["bytes", "bytes", "text"]))
     if mode == "bytes":
-        kind = draw(st.sampled_from(["empty", "zeros+body", "allzero", "allff", "random", "random", "len64"]))
+        kind = draw(st.sampled_from(["empty", "zeros+body", "allzero", "allff", "random", "random", "len64", "looks-like-prefix"]))
         if kind == "empty":
             data = b""
         elif kind == "zeros+body":
@@ -834,6 +836,10 @@ def conversion_cases(draw):
             data = b"\xff" * draw(st.integers(1, 64))
         elif kind == "len64":
             data = draw(st.binary(min_size=64, max_size=64))
+        elif kind == "looks-like-prefix":
+            # bytes whose hex / binary text starts like a radix prefix or a sign ("0b...", "0B", "0e1", "00x"): plain digits here
+            head = draw(st.sampled_from([b"\x0b", b"\x0b\x0b", b"\x0b\x10", b"\x0e\x10", b"\x00\x0b", b"\xb0\x0b", b"\x0d\x0a", b"\x0a"]))
+            data = (head + draw(st.binary(max_size=24)))[:64]
         else:
             data = draw(st.binary(max_size=64))
         pair = draw(st.sampled_from(FORMAT_PAIRS))
